@@ -6,7 +6,7 @@ From Coq Require Import ZArith QArith Qabs List Bool Lia.
 From FV Require Import Common.ListX Common.PySem Common.Chunk.
 From FV Require Import gen.Gen_ds_shakespeare gen.Gen_md_shakespeare gen.Gen_ds_stackoverflow gen.Gen_md_stackoverflow
   gen.Gen_ds_cifar100 gen.Gen_ds_emnist gen.Gen_tasks gen.Gen_md_cifar100 gen.Gen_ds_cifar100_defaults
-  gen.Gen_ds_shakespeare_defaults gen.Gen_md_shakespeare_loss gen.Gen_md_stackoverflow_loss.
+  gen.Gen_ds_shakespeare_defaults gen.Gen_md_shakespeare_loss gen.Gen_md_stackoverflow_loss gen.Gen_ds_cifar100_norm.
 From FV Require Import Common.QRow.
 Import ListNotations.
 Local Open Scope Z_scope.
@@ -187,7 +187,9 @@ Inductive C20_case :=
 | KPlain (i j : Z)
 | KStd (N S1 S2 : Z) (s : Q)
 | KDomain (id : list Z)
-| KLoss (shakespeare : bool) (el : option Q) (rows : list (list Q * list Z)).
+| KLoss (shakespeare : bool) (el : option Q) (rows : list (list Q * list Z))
+| KLut (vocab : list Z) (num_reserved : Z)          (* _build_look_up_table called directly *)
+| KPlainNorm.                                        (* preprocess_image(is_train=False) on sampled pixels *)
 
 Inductive C20_obs :=
 | ORaise
@@ -196,7 +198,9 @@ Inductive C20_obs :=
 | OWindow (h w : Z * Z)                           (* observed [lo, hi) of the rows / columns kept *)
 | OStd (samples : list (Z * Q))
 | OId (d : Z)
-| OLoss (per_row : list Q).
+| OLoss (per_row : list Q)
+| OTable (table : list Z) (vocab_size : Z)
+| ONorm (samples : list (nat * Z * Q)).              (* (channel, pixel value, output) *)
 
 Definition lz_eqb := list_beq Z.eqb.
 Definition llz_eqb := list_beq lz_eqb.
@@ -223,6 +227,11 @@ Definition C20_agree (c : C20_case) (o : C20_obs) : bool :=
   | KDomain id, OId d => match EM.domain_id id with Some m => m =? d | None => false end
   | KLoss sh el rows, OLoss vals =>
       all2 q_close vals (if sh then sh_batch_loss el rows else so_batch_loss el rows)
+  | KLut vocab nr, OTable table vs => lz_eqb (build_table vocab nr) table && (vs =? SH.lut_vocab_size nr (len vocab))
+  | KPlainNorm, ONorm samples =>
+      forallb (fun s => let '(c, v, out) := s in
+                        q_close out (Gen_ds_cifar100_norm.plain_normalise (inject_Z v) (nth c Gen_ds_cifar100_norm.plain_mean 0%Q)
+                                                                          (nth c Gen_ds_cifar100_norm.plain_std 1%Q))) samples
   | KDomain id, ORaise => match EM.domain_id id with None => true | Some _ => false end
   | _, _ => false
   end.
